@@ -210,6 +210,11 @@ func (c *checkSchema) checkLinksOfNode(node ischema.Node, ss map[string]ischema.
 	if isNullableNull(node) {
 		return
 	}
+	if _, ok := node.(*ischema.MixedNode); ok {
+		// The root of an `or` rule-set has no example of its own: the example is
+		// checked against the rule-set at the `or` rule that lists it.
+		return
+	}
 	if _, ok := c.allowedJsonTypes[node.Type()]; !ok {
 		panic(errs.ErrIncorrectUserType.F())
 	}
